@@ -116,7 +116,7 @@ func (g *Full) expr(typ string, depth int) gen.Expr {
 			return g.v("por")
 		}
 	case "string":
-		switch g.pick(0, 1, 1, 1, g.vc()) {
+		switch g.pick(0, 1, 1, 1, g.vc(), 1, 1) {
 		case 0:
 			return gen.Str("k")
 		case 1:
@@ -125,8 +125,12 @@ func (g *Full) expr(typ string, depth int) gen.Expr {
 			return gen.Str("a\\\"b")
 		case 3:
 			return gen.Str("")
-		default:
+		case 4:
 			return g.v("str")
+		case 5:
+			return gen.Str("say \\\"hi\\\"") // ends with an escaped quote
+		default:
+			return gen.Str("😀 𐐀 x") // characters outside the basic multilingual plane
 		}
 	case "any":
 		types := []string{"number", "account", "asset", "monetary", "portion", "string"}
